@@ -327,7 +327,9 @@ class Backend(object):
         if st != 'Optimal':
             raise HarnessError('back ends disagree: enumeration optimum %r, CBC status %s'
                                % (opt, st))
-        val = lp.objective.value()
-        if val is None or abs(val - opt) > 1e-6:
+        # (a variable CBC never saw, e.g. PuLP's __dummy, has no value: counts as 0)
+        val = sum(a * (v.varValue or 0.0) for v, a in lp.objective.items()) + \
+            (lp.objective.constant or 0)
+        if abs(val - opt) > 1e-6:
             raise HarnessError('back ends disagree on the optimum: enumeration %r, CBC %r'
                                % (opt, val))
